@@ -2773,6 +2773,101 @@ def rule_F26(prog):
     return r
 
 
+
+# ---------------------------------------------------------------- linear normal form of integer comparisons (F27-F29)
+def _lin_expr(e, lets, sign=1, acc=None, depth=0):
+    """{leaf: coefficient, "#": constant} of an expression built with + , * literal, << literal, saturating/wrapping
+    add and mul by a literal over arbitrary leaves (a leaf is named by its let-expanded origin).  Subtraction is NOT
+    folded (on usize it is not the inverse of addition): `a - b` is a leaf of its own.  None if not an integer shape."""
+    acc = {} if acc is None else acc
+    e = unwrap(e)
+    if not isinstance(e, dict) or depth > 12:
+        return None
+    if e.get("k") == "path" and e.get("res", {}).get("k") == "local" and e["res"]["id"] in lets:
+        return _lin_expr(lets[e["res"]["id"]], lets, sign, acc, depth + 1)
+    k = e.get("k")
+    if k == "lit" and re.match(r"^\d+(_?[ui](8|16|32|64|128|size))?$", str(e.get("src", ""))):
+        acc["#"] = acc.get("#", 0) + sign * int(re.match(r"^\d+", e["src"]).group(0))
+        return acc
+    def lit_of(x):
+        x = unwrap(x)
+        if isinstance(x, dict) and x.get("k") == "path" and x.get("res", {}).get("k") == "local" and x["res"]["id"] in lets:
+            return lit_of(lets[x["res"]["id"]])
+        if isinstance(x, dict) and x.get("k") == "lit" and re.match(r"^\d+", str(x.get("src", ""))) and "." not in str(x["src"]):
+            return int(re.match(r"^\d+", x["src"]).group(0))
+        return None
+    if k == "binary" and e["op"] == "+":
+        if _lin_expr(e["l"], lets, sign, acc, depth + 1) is None or _lin_expr(e["r"], lets, sign, acc, depth + 1) is None:
+            return None
+        return acc
+    if k == "binary" and e["op"] == "*":
+        for a, b in ((e["l"], e["r"]), (e["r"], e["l"])):
+            c = lit_of(b)
+            if c is not None:
+                return _lin_expr(a, lets, sign * c, acc, depth + 1)
+    if k == "binary" and e["op"] == "<<":
+        c = lit_of(e["r"])
+        if c is not None and c < 16:
+            return _lin_expr(e["l"], lets, sign * (1 << c), acc, depth + 1)
+    if k == "mcall" and e["name"] in ("saturating_add", "wrapping_add") and len(e["args"]) == 1:
+        if _lin_expr(e["recv"], lets, sign, acc, depth + 1) is None or _lin_expr(e["args"][0], lets, sign, acc, depth + 1) is None:
+            return None
+        return acc
+    if k == "mcall" and e["name"] in ("saturating_mul", "wrapping_mul") and len(e["args"]) == 1:
+        c = lit_of(e["args"][0])
+        if c is not None:
+            return _lin_expr(e["recv"], lets, sign * c, acc, depth + 1)
+    if k == "cast":
+        return _lin_expr(e.get("e") or e.get("x"), lets, sign, acc, depth + 1) if (e.get("e") or e.get("x")) else None
+    leaf = origin_deep(e, lets)
+    if leaf == "?" or leaf.startswith("lit:"):
+        return None
+    acc[leaf] = acc.get(leaf, 0) + sign
+    return acc
+
+
+def _lin_cmp(c, lets, negate=False):
+    """Normal form of an integer comparison: ("gt", {leaf: coef}, k) meaning sum > k, or ("eq"/"ne", {..}, k).
+    `!c`, `a >= b` (a > b - 1), flipped operands and `matches!`-free `if`/else negation are folded.  None otherwise."""
+    c = unwrap(c)
+    if not isinstance(c, dict):
+        return None
+    if c.get("k") == "path" and c.get("res", {}).get("k") == "local" and c["res"]["id"] in lets:
+        return _lin_cmp(lets[c["res"]["id"]], lets, negate)
+    if c.get("k") == "unary" and c.get("op") in ("!", "Not", "not"):
+        return _lin_cmp(c.get("e") or c.get("x"), lets, not negate)
+    if c.get("k") == "mcall" and c["name"] == "is_empty" and not c["args"]:
+        # x.is_empty()  ==  x.len() == 0
+        leaf = origin_deep(c["recv"], lets) + ".len()"
+        return ("ne" if negate else "eq", {leaf: 1}, 0)
+    if c.get("k") != "binary" or c["op"] not in (">", "<", ">=", "<=", "==", "!="):
+        return None
+    l = _lin_expr(c["l"], lets)
+    r = _lin_expr(c["r"], lets)
+    if l is None or r is None:
+        return None
+    op = c["op"]
+    if negate:
+        op = {">": "<=", "<": ">=", ">=": "<", "<=": ">", "==": "!=", "!=": "=="}[op]
+    def diff(a, b):
+        d = dict(a)
+        for k_, v in b.items():
+            d[k_] = d.get(k_, 0) - v
+        k0 = -d.pop("#", 0)
+        return {k_: v for k_, v in d.items() if v}, k0
+    if op in ("==", "!="):
+        d, k0 = diff(l, r)
+        # sign-normalise: first leaf (sorted) positive
+        if d and sorted(d.items())[0][1] < 0:
+            d, k0 = {k_: -v for k_, v in d.items()}, -k0
+        return ("eq" if op == "==" else "ne", d, k0)
+    if op in ("<", "<="):
+        l, r, op = r, l, {"<": ">", "<=": ">="}[op]
+    d, k0 = diff(l, r)          # sum(d) > k0   or   sum(d) >= k0
+    if op == ">=":
+        k0 -= 1
+    return ("gt", d, k0)
+
 # ---------------------------------------------------------------- F27: the split threshold of group_diff_ops
 _TWICE = r"(?:\((\w+)\*lit:2\)|\(lit:2\*(\w+)\)|\((\w+)\+(\w+)\)|(\w+)\.(?:saturating_mul|wrapping_mul)\(lit:2\)|\((\w+)<<lit:1\))"
 
@@ -2799,7 +2894,8 @@ def rule_F27(prog):
                                                      (x["k"] in ("call", "mcall"))):
                         conds.append((g, origin_deep(a["guard"], lets), a["guard"]))
         # keep comparisons only
-        cmps = [(g, o, n) for g, o, n in conds if re.match(r"^\(.*(>=|<=|>|<).*\)$", o)]
+        cmps = [(g, o, n) for g, o, n in conds if re.match(r"^\(.*(>=|<=|>|<).*\)$", o) or
+                (_lin_cmp(n["c"] if n.get("k") == "if" else n, _lets(g)) or ("",))[0] == "gt"]
         r.instances += 1
         if not cmps:
             r.ob(False, "group_diff_ops: no split condition found")
@@ -2808,7 +2904,9 @@ def rule_F27(prog):
             continue
         bad = []
         for g, o, n in cmps:
-            ok = bool(re.match(r"^\((\w+)>%s\)$" % _TWICE, o) or re.match(r"^\(%s<(\w+)\)$" % _TWICE, o))
+            nf = _lin_cmp(n["c"] if n.get("k") == "if" else n, _lets(g))
+            # len > 2 * n in any linear spelling: {len: 1, n: -2} > 0  (`len >= 2*n + 1`, `n + n < len`, `!(len <= n << 1)` ...)
+            ok = bool(nf and nf[0] == "gt" and nf[2] == 0 and sorted(nf[1].values()) == [-2, 1])
             if not ok:
                 bad.append((o, n.get("line", fn.line)))
         r.ob(not bad, "group_diff_ops split condition(s): %s" % [o for _, o, _ in cmps])
@@ -2840,8 +2938,10 @@ def rule_F28(prog):
             used = [l for l in len_locals if re.search(r"(?<![\w.])%s\b" % re.escape(l), o)]
             if not used:
                 continue
-            if not re.match(r"^\((%s)==lit:\d+\)$" % "|".join(map(re.escape, used)), o) and \
-                    not re.match(r"^\(lit:\d+==(%s)\)$" % "|".join(map(re.escape, used)), o):
+            nf = _lin_cmp(n["c"], {})
+            # `len == k` / `k == len` / `len != k` (branches swapped) / `len + 1 == 2` ...: one length, coefficient 1
+            if not (nf and nf[0] in ("eq", "ne") and len(nf[1]) == 1 and list(nf[1].values()) == [1] and
+                    list(nf[1])[0] in used and nf[2] in (0, 1)):
                 bad.append((o, n.get("line", fn.line)))
         r.ob(not bad, "hunk range Display: length tests %s" % ("are plain equalities" if not bad else bad))
         if bad:
@@ -2849,6 +2949,25 @@ def rule_F28(prog):
                    "the length of the range only (`len == 1`: start alone; `len == 0`: the line before the range)" % bad[0][0],
                    file=fn.file, line=bad[0][1])
     return r
+
+
+def _both_empty(c, lets, a, b, neg):
+    """`a == 0 && b == 0` (or, negated, `a != 0 || b != 0` / `a > 0 || b > 0`): the other spelling of a + b == 0."""
+    c = unwrap(c)
+    if not (isinstance(c, dict) and c.get("k") == "binary" and c["op"] in ("&&", "||")):
+        return False
+    if (c["op"] == "&&") == bool(neg):
+        return False
+    want = "eq"
+    seen = set()
+    for side in (c["l"], c["r"]):
+        nf = _lin_cmp(side, lets, negate=neg)
+        if nf and nf[0] == "gt" and nf[2] == -1 and len(nf[1]) == 1 and list(nf[1].values()) == [-1]:
+            nf = ("eq", {list(nf[1])[0]: 1}, 0)
+        if not (nf and nf[0] == want and nf[2] == 0 and len(nf[1]) == 1 and list(nf[1].values()) == [1]):
+            return False
+        seen.add(list(nf[1])[0])
+    return seen == {a, b}
 
 
 # ---------------------------------------------------------------- F29: the degenerate case of the similarity ratio
@@ -2882,15 +3001,61 @@ def rule_F29(prog):
                 if is_float_lit(br):
                     o = origin_deep(c, lets)
                     sites.append(o)
-                    sums = ("(%s+%s)" % (a, b), "(%s+%s)" % (b, a))
-                    ok_pos = any(o in ("(%s==lit:0)" % s_, "(lit:0==%s)" % s_) for s_ in sums)
-                    ok_neg = any(o in ("(%s!=lit:0)" % s_, "(%s>lit:0)" % s_, "(lit:0!=%s)" % s_, "(lit:0<%s)" % s_) for s_ in sums)
-                    if not ((not neg and ok_pos) or (neg and ok_neg)):
+                    nf = _lin_cmp(c, lets, negate=neg)
+                    # old_len + new_len == 0 in any linear spelling (`0 == a + b`, `!(a + b > 0)`, `a + b < 1`, else-branch of `!= 0`)
+                    if nf and nf[0] == "gt" and nf[2] == -1 and all(v < 0 for v in nf[1].values()):
+                        nf = ("eq", {k_: -v for k_, v in nf[1].items()}, 0)      # -(a+b) > -1  ==  a+b == 0 on unsigned
+                    both_empty = _both_empty(c, lets, a, b, neg)
+                    if not (both_empty or (nf and nf[0] == "eq" and nf[2] == 0 and nf[1] == {a: 1, b: 1})):
                         bad.append((o, n.get("line", fn.line)))
         r.ob(not bad, "get_diff_ratio: constant results under %s" % sites)
         if bad:
             r.find(fn.path, "ratio-degenerate", "get_diff_ratio returns a constant under `%s`; only `%s + %s == 0` makes the ratio "
                    "undefined -- with one side empty and the other not, the ratio is 0" % (bad[0][0], a, b), file=fn.file, line=bad[0][1])
+    return r
+
+
+# ---------------------------------------------------------------- F30: Patience looks for unique items in the whole requested ranges
+def rule_F30(prog):
+    r = RuleResult("F30", "Patience's anchors are the items unique within the WHOLE requested ranges: every `unique(seq, range)` call "
+                          "of patience::diff_deadline gets the function's own range parameter of that sequence, unmodified (an item "
+                          "that also occurs in a stripped common prefix/suffix is not unique)")
+    for fn in prog.find("algorithms::patience::diff_deadline"):
+        if not fn.hir or not fn.hir.get("body"):
+            continue
+        lets = _lets(fn)
+        params = [pp["pat"] for pp in fn.hir["params"] if pp["pat"].get("k") == "bind"]
+        pids = {pp["id"]: pp.get("name") for pp in params}
+        ptypes = {pp.get("name"): str(pp.get("ty", "")) for pp in params}
+        calls = [c for c in find_nodes(fn.hir["body"], lambda n: n["k"] == "call" and origin(n["f"]).rsplit("::", 1)[-1] == "unique")]
+        modified = set()
+        for n in find_nodes(fn.hir["body"], lambda n: n["k"] in ("assign", "assignop")):
+            root = n["l"]
+            while isinstance(root, dict) and root.get("k") in ("field", "index", "droptemps", "unary"):
+                root = root.get("base") or root.get("x")
+            if isinstance(root, dict) and root.get("k") == "path" and root.get("res", {}).get("id") in pids:
+                modified.add(pids[root["res"]["id"]])
+        for c in calls:
+            if len(c["args"]) != 2:
+                continue
+            r.instances += 1
+            seq = origin_deep(c["args"][0], lets)
+            rng = re.sub(r"\.clone\(\)$", "", origin_deep(c["args"][1], lets))
+            # the range parameter that goes with this sequence parameter: same `old`/`new` stem, or the parameter that follows it
+            names = [pp.get("name") for pp in params]
+            want = None
+            if seq in names:
+                i = names.index(seq)
+                if i + 1 < len(names) and "Range" in ptypes.get(names[i + 1], ""):
+                    want = names[i + 1]
+            ok = want is not None and rng == want and want not in modified
+            r.ob(ok, "%s: unique(%s, %s)" % (fn.path, seq, rng[:60]))
+            if not ok:
+                r.find(fn.path, "unique-range:%s" % seq,
+                       "`unique(%s, %s)` does not look at the whole requested range `%s`%s: an item that occurs once in the "
+                       "examined part and again outside it becomes an anchor although it is not unique" % (
+                           seq, rng[:60], want or "?", " (the parameter is modified before)" if want in modified else ""),
+                       file=fn.file, line=c["line"])
     return r
 
 
@@ -2925,6 +3090,15 @@ def premise_delete_arm_suffix_on_empty_range(prog, finding=None):
                     walk_hir(arm["body"], lambda n: lines.add(n.get("line")) if isinstance(n, dict) and n.get("line") else None)
                     if finding.line not in lines:
                         return False
+                    # ... and in no arm body that also serves another tag pair (a merged `(Insert, Equal) | (Delete, Equal)` arm
+                    # runs the same expression with a non-empty new range)
+                    for tags2, arm2, mn2 in _tag_pair_arms(fn):
+                        if mn2 is not mnode or tags2 == ("Delete", "Equal"):
+                            continue
+                        lines2 = set()
+                        walk_hir(arm2["body"], lambda n: lines2.add(n.get("line")) if isinstance(n, dict) and n.get("line") else None)
+                        if finding.line in lines2:
+                            return False
     return found > 0
 
 
